@@ -49,6 +49,18 @@ var basePreamble = []string{
 	"(define-fun emptybase () (Array Int Int) ((as const (Array Int Int)) 0))",
 }
 
+func displayNameFor(fn *ssa.Function, fc *FuncContract) string {
+	if fc != nil && strings.HasPrefix(fc.Key, "after:") {
+		p := pkgOf(fn)
+		pn := ""
+		if p != nil {
+			pn = p.Name()
+		}
+		return pn + ".closure(" + strings.TrimPrefix(fc.Key, "after:") + ")"
+	}
+	return displayName(fn)
+}
+
 func displayName(fn *ssa.Function) string {
 	p := pkgOf(fn)
 	pn := ""
@@ -419,7 +431,7 @@ func mergeResults(parts []*FuncResult) *FuncResult {
 
 func (e *Engine) verifyShard(fn *ssa.Function, fc *FuncContract, opts VerifyOpts, shard, nshards int, owners map[string]uint64) (res *FuncResult) {
 	t0 := time.Now()
-	res = &FuncResult{Key: ckey(fc.Pkg, fc.Key), Display: displayName(fn), Pkg: fc.Pkg, Props: fc.Props, fn: fn, fc: fc}
+	res = &FuncResult{Key: ckey(fc.Pkg, fc.Key), Display: displayNameFor(fn, fc), Pkg: fc.Pkg, Props: fc.Props, fn: fn, fc: fc}
 	defer func() {
 		res.WallMs = time.Since(t0).Milliseconds()
 		if r := recover(); r != nil {
@@ -459,7 +471,7 @@ func (e *Engine) verifyShard(fn *ssa.Function, fc *FuncContract, opts VerifyOpts
 	defer sess.Close()
 	x := &Exec{eng: e, sess: sess, top: fn, fc: fc, obligs: map[string]*Oblig{}, declared: map[string]bool{}, usedSpecs: map[string]bool{},
 		notes: map[string]bool{}, pathCap: opts.PathCap, safetyNames: map[ssa.Instruction]string{}, raceTimeout: opts.RaceTimeoutS,
-		inlineDepth: opts.InlineDepth, curFnName: displayName(fn), shard: shard, nshards: nshards, owners: owners}
+		inlineDepth: opts.InlineDepth, curFnName: displayNameFor(fn, fc), shard: shard, nshards: nshards, owners: owners}
 	if lc, ok := gLeafCounts.Load(fn); ok {
 		x.leafCount = lc.(map[string]int)
 	}
@@ -504,6 +516,10 @@ func (e *Engine) verifyShard(fn *ssa.Function, fc *FuncContract, opts VerifyOpts
 		st.cellv[c] = val
 		fr.binds = append(fr.binds, Ptr{Cell: c, Elem: elem})
 		entryVars[fv.Name()] = val
+		if x.freeCells == nil {
+			x.freeCells = map[string]*Cell{}
+		}
+		x.freeCells[fv.Name()] = c
 		_ = i
 	}
 	x.paramVals = entryVars
